@@ -200,6 +200,11 @@ def run (t : Tok) (bs : Bytes) : Tok := bs.foldl step t
 /-- the tags of a document, in order -/
 def tokenize (bs : Bytes) : List Tag := (run {} bs).out.reverse
 
+/-- the tokenizer is inside a `<!-- … -->` comment -/
+def inComment (s : St) : Prop :=
+  s = .commentStart ∨ s = .commentStartDash ∨ s = .comment ∨ s = .commentEndDash ∨ s = .commentEnd ∨
+  s = .commentEndBang
+
 /-! ## character references in attribute values -/
 
 /-- numeric references with or without `;`, named references with `;` (via `lk`). -/
@@ -239,37 +244,70 @@ def decodeRefs (lk : Lookup) (s : Bytes) : Bytes := decodeRefsAux lk (s.length +
 def isC0Space (c : Nat) : Bool := decide (c ≤ 32)
 def isTabNl (c : Nat) : Bool := c = 9 || c = 10 || c = 13
 
-/-- WHATWG URL parser pre-processing -/
+/-- remove the trailing C0-control-or-space bytes -/
+def dropTrailingC0 : Bytes → Bytes
+  | [] => []
+  | c :: r =>
+    let r' := dropTrailingC0 r
+    if r'.isEmpty && isC0Space c then [] else c :: r'
+
+/-- WHATWG URL parser pre-processing: strip leading and trailing C0-control-or-space, then
+    remove every ASCII tab or newline -/
 def stripURL (u : Bytes) : Bytes :=
-  (((u.dropWhile isC0Space).reverse.dropWhile isC0Space).reverse).filter (fun c => !isTabNl c)
+  (dropTrailingC0 (u.dropWhile isC0Space)).filter (fun c => !isTabNl c)
 
 def schemeChar (c : Nat) : Bool := isAlnum c || c = 43 || c = 45 || c = 46
 
-/-- the (lower-cased) scheme of an already pre-processed URL -/
+/-- the scheme characters up to the first `:` (none if something else comes first) -/
+def schemeTail : Bytes → Option Bytes
+  | [] => none
+  | c :: r =>
+    if c = 58 then some []
+    else if schemeChar c then (schemeTail r).map (c :: ·)
+    else none
+
+/-- the (lower-cased) scheme of an already pre-processed URL: `alpha (alnum | + | - | .)* ':'` -/
 def urlScheme (u : Bytes) : Option Bytes :=
   match u with
   | [] => none
   | c :: rest =>
-    if isAlpha c then
-      match spanP schemeChar rest with
-      | (s, 58 :: _) => some ((c :: s).map lowerB)
-      | _ => none
-    else none
+    if isAlpha c then (schemeTail rest).map (fun s => (c :: s).map lowerB) else none
 
-/-- the `data:` URLs that are NOT counted as script-capable: the five image types -/
+/-- the `data:` URL prefixes that are NOT counted as script-capable: the five image types -/
+def dataImagePrefixes : List Bytes :=
+  [B!"data:image/png;", B!"data:image/gif;", B!"data:image/jpeg;", B!"data:image/webp;",
+   B!"data:image/svg+xml;"]
+
 def allowedDataImage (u : Bytes) : Bool :=
-  let l := u.map lowerB
-  hasPrefix l (B!"data:image/") &&
-    (let v := l.drop 11
-     hasPrefix v (B!"png;") || hasPrefix v (B!"gif;") || hasPrefix v (B!"jpeg;") ||
-     hasPrefix v (B!"webp;") || hasPrefix v (B!"svg+xml;"))
+  dataImagePrefixes.any (fun w => w.isPrefixOf (u.map lowerB))
 
-/-- the URL, as the browser reads it, runs script (or arbitrary content) when followed / loaded -/
-def scriptCapable (u : Bytes) : Bool :=
-  let n := stripURL u
+/-- verdict on an already pre-processed URL -/
+def schemeVerdict (n : Bytes) : Bool :=
   match urlScheme n with
   | some s => s == B!"javascript" || s == B!"vbscript" || (s == B!"data" && !allowedDataImage n)
   | none => false
+
+/-- the URL, as the browser reads it, runs script (or arbitrary content) when followed / loaded -/
+def scriptCapable (u : Bytes) : Bool := schemeVerdict (stripURL u)
+
+/-! ## what an escaped text looks like -/
+
+/-- every `&` of `s` is immediately followed by one of `tails` -/
+def ampOK (tails : List Bytes) : Bytes → Bool
+  | [] => true
+  | c :: rest => (c != 38 || tails.any (fun t => t.isPrefixOf rest)) && ampOK tails rest
+
+/-- the entity bodies the two Go escapers (`template.HTMLEscapeString`, `html.EscapeString`) produce -/
+def goTails : List Bytes := [B!"amp;", B!"lt;", B!"gt;", B!"#34;", B!"#39;"]
+/-- the entity bodies goldmark's `util.EscapeHTML` produces -/
+def gmTails : List Bytes := [B!"amp;", B!"lt;", B!"gt;", B!"quot;"]
+
+/-- what a browser shows for a NUL byte the escapers replaced: U+FFFD -/
+def nulFix (s : Bytes) : Bytes := s.flatMap fun c => if c = 0 then [239, 191, 189] else [c]
+
+/-- an entity lookup that knows at least the four names the escapers emit -/
+def KnowsBasic (lk : Lookup) : Prop :=
+  lk (B!"amp") = some [38] ∧ lk (B!"lt") = some [60] ∧ lk (B!"gt") = some [62] ∧ lk (B!"quot") = some [34]
 
 /-! ## the safety predicate -/
 
